@@ -77,12 +77,13 @@ def _cub(name, d, sizes, per=(0, 0, 0), vert=0, mode='geom', vmax=2, tiers=('qui
 PROPS['C13'] = dict(
   explanation='Bounded symbolic execution of the real Bitmap_cubical_complex(_periodic_boundary_conditions)_base (clang IR of the headers in /repo) for a table of grid shapes; the queried cell index and every top-cell / vertex value are solver variables. z3 decides on every path: dd=0 with signs alternating along the enumeration, boundary/coboundary are converse and equal the grid geometry recomputed by an independent mixed-radix oracle, incidence numbers are +-1, the cell value is the min over containing top cells (max over vertices), the filtration order is total, monotone and faces-first.',
   bounds=dict(quick='incidence/geometry clauses (symbolic cell): 1x3, 2x3, 3, 2x2x1, 2x2x2, torus 3x3 and 3x3x3, cylinders 3x2, 2x3, 3x1x2, vertex-input 2x2 and cylinder; value clause (symbolic values 0..2 + symbolic cell): 2x2, 1x3, 2x2 from vertices, cylinder 3x1; order clause: 2x2 (values 0..1), 3 (1-d)', thorough='+ value clause on 2x3, torus 3x3, 2x2x2; order clause 2x2 with values 0..2; float instantiation'),
-  outside=['grids larger than the listed shapes', 'periodic sides shorter than 3', 'Perseus file constructors (iostream)', 'persistence of the complex (see C02)'],
+  outside=['grids larger than the listed shapes', 'periodic sides shorter than 3', 'NaN values', 'Perseus file constructors (iostream)', 'persistence of the complex (see C02)'],
   units=[_cub('geom_1x3', 2, (1, 3)), _cub('geom_2x3', 2, (2, 3)), _cub('geom_3_1d', 1, (3,)), _cub('geom_2x2x1', 3, (2, 2, 1), weight=5), _cub('geom_2x2x2', 3, (2, 2, 2), weight=8),
          _cub('geom_torus3x3', 2, (3, 3), per=(1, 1, 0), weight=5), _cub('geom_cyl3x2', 2, (3, 2), per=(1, 0, 0)), _cub('geom_cyl2x3', 2, (2, 3), per=(0, 1, 0)), _cub('geom_torus3x3x3', 3, (3, 3, 3), per=(1, 1, 1), weight=12), _cub('geom_cyl3x1x2', 3, (3, 1, 2), per=(1, 0, 0), weight=6),
          _cub('geom_2x2_vert', 2, (2, 2), vert=1), _cub('geom_cyl3x2_vert', 2, (3, 2), per=(1, 0, 0), vert=1),
          _cub('vals_2x2', 2, (2, 2), mode='vals', weight=6), _cub('vals_1x3', 2, (1, 3), mode='vals', weight=4), _cub('vals_2x2_vert', 2, (2, 2), vert=1, mode='vals', vmax=1, weight=8), _cub('vals_cyl3x1', 2, (3, 1), per=(1, 0, 0), mode='vals', weight=5),
          _cub('order_1x2', 2, (1, 2), mode='order', vmax=2, weight=9), _cub('order_2x2', 2, (2, 2), mode='order', vmax=1, tiers=['thorough'], weight=30), _cub('order_3_1d', 1, (3,), mode='order', weight=5),
+         dict(_cub('order_1x2_inf', 2, (1, 2), mode='order', vmax=1, weight=9), defs=_cub('x', 2, (1, 2), mode='order', vmax=1)['defs'] + ['VP_INFTOP']), dict(_cub('order_cyl3x1_inf', 2, (3, 1), per=(1, 0, 0), mode='order', vmax=1, weight=9), defs=_cub('x', 2, (3, 1), per=(1, 0, 0), mode='order', vmax=1)['defs'] + ['VP_INFTOP']), dict(_cub('vals_2x2_inf', 2, (2, 2), mode='vals', vmax=1, weight=6), defs=_cub('x', 2, (2, 2), mode='vals', vmax=1)['defs'] + ['VP_INFTOP']),
          _cub('vals_2x3', 2, (2, 3), mode='vals', tiers=['thorough'], weight=20), _cub('vals_torus3x3', 2, (3, 3), per=(1, 1, 0), mode='vals', vmax=1, tiers=['thorough'], weight=20), _cub('order_2x2_v2', 2, (2, 2), mode='order', vmax=2, tiers=['thorough'], weight=20),
          _cub('all_2x2_float', 2, (2, 2), mode='all', vmax=1, t='float', tiers=['thorough'], weight=20), _cub('vals_2x2x2', 3, (2, 2, 2), mode='vals', vmax=1, tiers=['thorough'], weight=25)])
 
@@ -130,6 +131,8 @@ for fl in range(3):
         _u05.append(_pm('C05_matrix.cpp', 'm_%s_idx%d_rows_rm' % (_FL[fl], idx), flavour=fl, idx=idx, rows=1, removable=1, rep=1 if fl == 1 else 0, m=4, extra=['VP_RM=2'], weight=6, must=('end', 'removed')))
 for fl in range(3):
     _u05.append(_pm('C05_matrix.cpp', 'm_%s_gapped_ids_rm' % _FL[fl], flavour=fl, idx=0 if fl != 2 else 2, removable=1, rep=1 if fl == 1 else 0, m=4, extra=['VP_RM=2', 'VP_IDS'], weight=12, must=('end', 'removed')))
+for fl in range(3):
+    _u05.append(_pm('C05_matrix.cpp', 'm_%s_cw_null_boundaries' % _FL[fl], z2=fl % 2, flavour=fl, rep=1 if fl == 1 else 0, m=4, extra=['VP_CW'], weight=6))
 _u05.append(_pm('C05_matrix.cpp', 'm_ru_z5_units', z2=0, flavour=1, rep=1, m=4, extra=['VP_UNITS'], weight=8))
 _u05.append(_pm('C05_matrix.cpp', 'm_chain_z5_units_rm', z2=0, flavour=2, removable=1, m=4, extra=['VP_UNITS', 'VP_RM=1'], weight=8))
 _u05.append(_pm('C05_matrix.cpp', 'm_boundary_set_rows2', col='SET', flavour=0, rows=2, m=5, weight=6))
@@ -156,6 +159,17 @@ _kf6 = _pm('C06_vine.cpp', 'v_ru_pos_rm_kf', flavour=1, idx=1, vine=1, removable
 _u06.append(_pm('C06_vine.cpp', 'v_ru_pos_m5k3', flavour=1, idx=1, vine=1, m=5, extra=['VP_K=3'], weight=10, must=('end', 'swap')))
 _u06.append(_pm('C06_vine.cpp', 'v_ru_pos_vector_m5k3', col='VECTOR', flavour=1, idx=1, vine=1, m=5, extra=['VP_K=3'], weight=10, must=('end', 'swap')))
 _u06.append(_pm('C06_vine.cpp', 'v_ru_pos_vector_graph_m8k2', col='VECTOR', flavour=1, idx=1, vine=1, m=8, nv=4, extra=['VP_K=2', 'VP_MAXDIM=1', 'VP_FORKCELL'], tiers=['thorough'], weight=40, must=('end', 'swap')))
+_u06.append(_pm('C06_vine.cpp', 'v_ru_pos_nobarcode', flavour=1, idx=1, vine=1, m=4, extra=['VP_K=2', 'VP_BARCODE=0'], weight=4, must=('end', 'swap')))
+_u06.append(_pm('C06_vine.cpp', 'v_ru_pos_nobarcode_m5k3', flavour=1, idx=1, vine=1, m=5, extra=['VP_K=3', 'VP_BARCODE=0'], tiers=['thorough'], weight=10, must=('end', 'swap')))
+for fl in (1, 2):
+    _u06.append(_pm('C06_vine.cpp', 'v_%s_pos_noreserve' % _FL[fl], flavour=fl, idx=1, vine=1, m=4, extra=['VP_K=2', 'VP_NORESERVE'], weight=4, must=('end', 'swap')))
+_u06.append(_pm('C06_vine.cpp', 'v_ru_pos_vector_noreserve', col='VECTOR', flavour=1, idx=1, vine=1, m=4, extra=['VP_K=2', 'VP_NORESERVE'], weight=4, must=('end', 'swap')))
+for fl in (1, 2):
+    for col in ('INTRUSIVE_SET', 'VECTOR'):
+        _u06.append(_pm('C06_vine.cpp', 'v_%s_pos_late_%s' % (_FL[fl], col.lower()), col=col, flavour=fl, idx=1, vine=1, m=5, extra=['VP_K=3', 'VP_LATE=2', 'VP_NORESERVE'], weight=8, must=('end', 'swap', 'insert')))
+_u06.append(_pm('C06_vine.cpp', 'v_chain_id_rm_k3', flavour=2, idx=2, vine=1, rows=1, removable=1, m=4, extra=['VP_K=3'], weight=12, must=('end', 'swap', 'remove_maximal_cell', 'insert')))
+_u06.append(_pm('C06_vine.cpp', 'v_chain_pos_rm_k3', flavour=2, idx=1, vine=1, rows=1, removable=1, m=4, extra=['VP_K=3'], weight=12, must=('end', 'swap', 'remove_maximal_cell', 'insert')))
+_u06.append(_pm('C06_vine.cpp', 'v_ru_pos_rmlast_vector_container', flavour=1, idx=1, vine=1, removable=1, m=4, extra=['VP_K=3', 'VP_MAPC=0'], weight=12, must=('end', 'swap', 'remove_maximal_cell', 'insert')))
 _u06.append(_pm('C06_vine.cpp', 'v_chain_pos_m5k3', flavour=2, idx=1, vine=1, m=5, extra=['VP_K=3'], weight=10, must=('end', 'swap')))
 for ci, col in enumerate(_COLS):
     for fl in (1, 2):
@@ -231,6 +245,7 @@ PROPS['C03'] = dict(
   bounds=dict(quick='all face-closed complexes on 3 vertices; values 0..2 (order and monotonisation), + NaN and +-inf thresholds (pruning); extended filtration with vertex values on {0,0.5,..,2}', thorough='4 vertices: full tetrahedron boundary and all shapes with values 0..1'),
   outside=['real TBB execution / thread schedules (the engine is sequential; covered through the comparator contract)', 'more than 4 vertices', 'Bitmap_cubical_complex::filtration_simplex_range (checked under C13)'],
   units=[U('order_n3', 'C03_filtration.cpp', ['VP_MODE=0', 'VP_N=3', 'VP_VMAX=2'], weight=10), U('monotonise_n3', 'C03_filtration.cpp', ['VP_MODE=1', 'VP_N=3', 'VP_VMAX=2'], weight=6), U('prune_n3', 'C03_filtration.cpp', ['VP_MODE=2', 'VP_N=3', 'VP_VMAX=2'], weight=8),
+         U('monotonise_n3_int', 'C03_filtration.cpp', ['VP_MODE=1', 'VP_N=3', 'VP_VMAX=2', 'VP_INTFILT'], weight=6),
          U('extended_n3', 'C03_filtration.cpp', ['VP_MODE=3', 'VP_N=3', 'VP_VMAX=2'], weight=8),
          U('order_n4', 'C03_filtration.cpp', ['VP_MODE=0', 'VP_N=4', 'VP_VMAX=1'], tiers=['thorough'], weight=40), U('monotonise_n4', 'C03_filtration.cpp', ['VP_MODE=1', 'VP_N=4', 'VP_VMAX=1'], tiers=['thorough'], weight=30), U('prune_n4', 'C03_filtration.cpp', ['VP_MODE=2', 'VP_N=4', 'VP_VMAX=1'], tiers=['thorough'], weight=30), U('extended_n4', 'C03_filtration.cpp', ['VP_MODE=3', 'VP_N=4', 'VP_VMAX=1'], tiers=['thorough'], weight=30)])
 
@@ -266,6 +281,7 @@ PROPS['C07'] = dict(
   outside=['sequences longer than k', 'column types other than the default of the class'],
   units=[U('zz_tri_k6', 'C07_zigzag.cpp', ['VP_K=6', 'VP_NV=3'], cflags=['-U__SSE2__'], weight=10, must_reach=['end', 'insert', 'remove', 'identity', 'insert-only']),
          U('zz_tri_k5_filtered', 'C07_zigzag.cpp', ['VP_K=5', 'VP_NV=3', 'VP_FILTERED'], cflags=['-U__SSE2__'], weight=10, must_reach=['end', 'insert', 'remove']),
+         U('zz_k4t_prefix_k10_filtered', 'C07_zigzag.cpp', ['VP_K=10', 'VP_NV=4', 'VP_FILTERED', 'VP_PREFIX_K4T'], cflags=['-U__SSE2__'], weight=10, must_reach=['end', 'insert', 'remove']),
          U('zz_tet_k5', 'C07_zigzag.cpp', ['VP_K=5', 'VP_NV=4'], cflags=['-U__SSE2__'], weight=10, must_reach=['end', 'insert', 'remove']),
          U('zz_tri_k6_full', 'C07_zigzag.cpp', ['VP_K=6', 'VP_NV=3', 'VP_FULLORACLE'], cflags=['-U__SSE2__'], weight=10, must_reach=['end', 'full-oracle', 'remove']),
          U('zz_graph4_e5_full', 'C07_zigzag.cpp', ['VP_K=9', 'VP_NV=4', 'VP_FULLORACLE', 'VP_EDGES_ONLY'], cflags=['-U__SSE2__'], weight=12, must_reach=['end', 'full-oracle', 'remove']),
@@ -289,13 +305,19 @@ PROPS['C12'] = dict(
 _t11 = ['end', 'full', 'lower', 'upper', 'sparse']
 PROPS['C11'] = dict(
   explanation='Bounded symbolic execution of the real Ripser engine (gudhi/ripser.h: distance-matrix classes, the three simplex encodings incl. the 128-bit integer class, coboundary enumerators, apparent pairs, the hash-map based cohomology; clang IR of the headers in /repo): every dissimilarity is a finite-grid float (ties, no triangle inequality), threshold, dim_max, input form and encoding are forked by the solver, the modulus is concrete per unit; the streamed intervals (zero-length dropped) are compared as multisets per dimension with a dense signed Z_p reduction of the truncated Rips flag filtration computed in the harness.',
-  bounds=dict(quick='(+ unit bigindex: 5 points among 2050 isolated vertices in the sparse form with active labels 1030+256i among 2055 vertices, p=3, dim_max 2, concrete matrices enumerated by the solver: packed simplex indices exceed 32 bits and differ in their high bits) n=4 points, distances in {1,2}, thresholds {0.5,1,2,inf}, dim_max 0..2, forms full/lower/upper/sparse, encodings auto/bitfield-64/bitfield-128/cns-128 combined by a covering design (every pair of factors levels), modulus 2 and 3; n=3 modulus 5; sparse input with 1500 isolated padding vertices before the 4 active ones (vertex ids and packed simplex indices beyond 32 bits), modulus 3', thorough='full cross product at n=4; n=5 with distances in {1,2}, modulus 2 and 3'),
+  bounds=dict(quick='n=4: dissimilarities in {1,2} as symbolic grid floats (p=2), and in {0,1,2} (zero entries between distinct points, no triangle inequality) as concrete matrices enumerated by the solver (p=2 and 3); n=5 in {1,2} (p=2, enumerated); thresholds {0.5,1,2,inf}, dim_max 0..n-2, forms full/lower/upper/sparse, encodings auto/bitfield-64/bitfield-128/cns-128 combined by a covering design (every pair of factor levels); n=3 modulus 5, values {1,2,3}; unit bigindex: 5 active points with labels 1030+256i among 2055 sparse vertices, p=3, dim_max 2 (packed simplex indices exceed 32 bits and differ in their high bits)', thorough='full cross product at n=4 with values {1,2,3}; n=5 with {0,1,2} (p=3) and {1,2,3} (p=2); n=4 p=3 symbolic'),
   outside=['Euclidean point-cloud input (sqrt of symbolic coordinates)', 'more than 5 points', 'the SIMD path of boost::unordered_flat_map (compiled with -U__SSE2__)', 'moduli above 5'],
   budget=dict(quick=1200, thorough=3300),
-  units=[U('ripser_n4_p2', 'C11_ripser.cpp', ['VP_N=4', 'VP_P=2', 'VP_DMAX=2'], cflags=['-U__SSE2__'], weight=10, must_reach=_t11), U('ripser_n4_p3', 'C11_ripser.cpp', ['VP_N=4', 'VP_P=3', 'VP_DMAX=2'], cflags=['-U__SSE2__'], weight=10, must_reach=_t11),
+  units=[U('ripser_n4_p2', 'C11_ripser.cpp', ['VP_N=4', 'VP_P=2', 'VP_DMAX=2'], cflags=['-U__SSE2__'], weight=10, must_reach=_t11),
+         U('ripser_n4_p3_zero', 'C11_ripser.cpp', ['VP_N=4', 'VP_P=3', 'VP_DMAX=2', 'VP_DLO=0', 'VP_FORKD'], cflags=['-U__SSE2__'], weight=10, must_reach=_t11),
+         U('ripser_n4_p2_zero', 'C11_ripser.cpp', ['VP_N=4', 'VP_P=2', 'VP_DMAX=2', 'VP_DLO=0', 'VP_FORKD'], cflags=['-U__SSE2__'], weight=10, must_reach=_t11),
+         U('ripser_n5_p2_forked', 'C11_ripser.cpp', ['VP_N=5', 'VP_P=2', 'VP_DMAX=2', 'VP_FORKD'], cflags=['-U__SSE2__'], weight=14, must_reach=_t11),
          U('ripser_n5_p3_bigindex', 'C11_ripser.cpp', ['VP_N=5', 'VP_P=3', 'VP_DMAX=2', 'VP_PAD=1030', 'VP_PADGAP=256', 'VP_PADDIM=2', 'VP_FORKD'], cflags=['-U__SSE2__'], weight=20, must_reach=['end', 'sparse']),
          U('ripser_n3_p5', 'C11_ripser.cpp', ['VP_N=3', 'VP_P=5', 'VP_DMAX=3'], cflags=['-U__SSE2__'], weight=5, must_reach=_t11),
-         U('ripser_n4_p2_cross', 'C11_ripser.cpp', ['VP_N=4', 'VP_P=2', 'VP_DMAX=3', 'VP_CROSS'], cflags=['-U__SSE2__'], tiers=['thorough'], weight=60, must_reach=_t11), U('ripser_n5_p2', 'C11_ripser.cpp', ['VP_N=5', 'VP_P=2', 'VP_DMAX=2'], cflags=['-U__SSE2__'], tiers=['thorough'], weight=60, must_reach=_t11), U('ripser_n5_p3', 'C11_ripser.cpp', ['VP_N=5', 'VP_P=3', 'VP_DMAX=2'], cflags=['-U__SSE2__'], tiers=['thorough'], weight=60, must_reach=_t11)])
+         U('ripser_n4_p3', 'C11_ripser.cpp', ['VP_N=4', 'VP_P=3', 'VP_DMAX=2'], cflags=['-U__SSE2__'], tiers=['thorough'], weight=20, must_reach=_t11),
+         U('ripser_n4_p2_cross', 'C11_ripser.cpp', ['VP_N=4', 'VP_P=2', 'VP_DMAX=3', 'VP_CROSS', 'VP_FORKD'], cflags=['-U__SSE2__'], tiers=['thorough'], weight=60, must_reach=_t11),
+         U('ripser_n5_p3_zero', 'C11_ripser.cpp', ['VP_N=5', 'VP_P=3', 'VP_DMAX=2', 'VP_DLO=0', 'VP_FORKD'], cflags=['-U__SSE2__'], tiers=['thorough'], weight=60, must_reach=_t11),
+         U('ripser_n5_p2_d3', 'C11_ripser.cpp', ['VP_N=5', 'VP_P=2', 'VP_DMAX=3', 'VP_FORKD'], cflags=['-U__SSE2__'], tiers=['thorough'], weight=60, must_reach=_t11)])
 
 # ------------------------------------------------------------------------------------------------ C18
 PROPS['C18'] = dict(
